@@ -850,3 +850,50 @@ def error_rendering_is_total(ctx):
     ctx.ob(True, 'package', 'raise statements examined for partial message construction: %d' % m)
     ctx.require(m >= 60, 'raise statements not found (%d)' % m)
     ctx.floor(8)
+
+
+@rule('C04.27')
+def debug_switch_is_read_case_insensitively(ctx):
+    """GLOM_DEBUG decides whether errors leave glom() raw (no GlomError, no trace).  The
+    environment value is normalised -- stripped and lower-cased -- before it is compared with the
+    "off" spellings '', '0', 'false': without ``.lower()`` the common spelling ``False`` switches
+    debug mode *on* for the whole process"""
+    mod = ctx.program.modules['glom.core']
+    # every module-level statement that binds GLOM_DEBUG (an if / else spelling of the choice included)
+    defs = [st for st in mod.tree.body if not isinstance(st, (ast.FunctionDef, ast.AsyncFunctionDef, ast.ClassDef))
+            and any(isinstance(x, ast.Name) and x.id == 'GLOM_DEBUG' and isinstance(x.ctx, ast.Store) for x in ast.walk(st))]
+    ctx.require(defs, 'core.GLOM_DEBUG: definition not found')
+    calls = {c.func.attr for st in defs for c in ast.walk(st) if isinstance(c, ast.Call) and isinstance(c.func, ast.Attribute)}
+    consts = {c.value for st in defs for c in ast.walk(st) if isinstance(c, ast.Constant) and isinstance(c.value, str)}
+    ok = 'getenv' in calls or 'get' in calls
+    ctx.ob(ok, 'glom/core.py', 'GLOM_DEBUG is read from the environment: %s' % [norm(st)[:60] for st in defs])
+    ok = {'lower', 'strip'} <= calls or 'casefold' in calls
+    ctx.ob(ok, 'glom/core.py', 'the value is stripped and lower-cased before it is compared (%s)' % sorted(calls),
+           '' if ok else "GLOM_DEBUG=False / FALSE is not among the off spellings: debug mode is on, every error leaves glom() unwrapped", node=defs[0])
+    ok = {'', '0', 'false'} <= consts
+    ctx.ob(ok, 'glom/core.py', "'', '0' and 'false' mean off: %s" % sorted(consts))
+    ctx.floor(3)
+
+
+@rule('C04.28')
+def aggregators_refuse_other_modes_by_the_mode(ctx):
+    """an aggregator used outside Group mode is a BadSpec; what says "Group mode" is the frame's
+    MODE, not the presence of an accumulator tree further up the scope chain (that is inherited
+    through Auto / Fill / Match wrappers below a Group)"""
+    u = ctx.unit('grouping.Limit.glomit')
+    cfg = ctx.cfg(u)
+    scope = u.params[2]
+    raises = [n for n in cfg.nodes if n.kind == 'stmt' and isinstance(n.ast, ast.Raise)
+              and is_subclass(raised_class(ctx.program, u, n.ast), 'BadSpec')]
+    ctx.require(raises, 'Limit.glomit: BadSpec raise not found')
+    ok = False
+    for t in cfg.nodes:
+        if t.kind != 'test':
+            continue
+        pol = polarity(t.ast, '%s[MODE] is not GROUP' % scope)
+        if pol and cfg.find_path(t, set(raises), labels=lambda l: l != 'exc', start_labels=lambda l, y=pol: l == y) is not None \
+                and cfg.find_path(t, set(raises), labels=lambda l: l != 'exc', start_labels=lambda l, y=pol: l != y) is None:
+            ok = True
+    ctx.ob(ok, u, 'Limit outside Group mode is refused by testing the frame\'s MODE',
+           '' if ok else 'the BadSpec is not decided by `scope[MODE] is not GROUP`: below a Group but inside another mode the aggregator runs on', node=raises[0].ast)
+    ctx.floor(1)
